@@ -55,6 +55,20 @@ CHECKS["C14"] = ("TLC explores WritersImpl (registry, lazily opened and buffered
                  "replayed on the real builder with real FileWriter objects and TLC compares the bytes read back after every action.",
                  "5 C14", "Trusted: a second file handle shows what is durably in a file; the driver's own rendering of a statement; TLC.")
 
+CHECKS["C15"] = ("TLC explores SenderImpl (print thread, reader thread, firmware, both FIFOs, shared variables named as in "
+                 "printcore) over jobs x corruption sets x delivery interleavings, with safety (in order, no duplicates), "
+                 "termination and completeness modulo the two recorded findings; behaviours are projected onto corruption sets "
+                 "and reply hold-points, replayed on the real printcore threads over a scripted serial port, and TLC re-derives "
+                 "the firmware's view from the logged transmissions (framing, xor checksum, numbering, resend service, completeness).",
+                 "5 C15", "Trusted: the Marlin-style firmware written in SenderTrace.tla; the fake serial port as the OS boundary; "
+                 "event order under one lock (replies logged when the host's reader takes them).")
+CHECKS["C16"] = ("TLC explores DirectWriteImpl (caller, sender thread, reader callback, start-up job) and shows synchrony/error "
+                 "surfacing hold exactly outside the stale start-up acknowledgement (F12); the model's schedule choices are "
+                 "enumerated and run on the real SerialWriter/PrintrunWriter/printcore threads; TLC judges order, synchrony, error "
+                 "surfacing, termination of write() and disconnect(wait=True) on the logged events.",
+                 "5 C16", "Trusted: the scripted device (one acknowledgement per line, in order); a 20 ms window before each "
+                 "acknowledgement; event order under one lock.")
+
 NOT_YET = {}
 
 
